@@ -553,7 +553,7 @@ func genConnScenario(r *prng.R, tier string) connScenario {
 			}
 			kind := "ok"
 			if y := r.Intn(10); y < 3 {
-				kind = fmt.Sprintf("err:%d", []int{4, 20, 127, 128, 300, 4000}[r.Intn(6)])
+				kind = fmt.Sprintf("err:%d", []int{8, 20, 127, 128, 300, 4000}[r.Intn(6)])
 			} else if y == 3 {
 				kind = "empty"
 			}
